@@ -432,6 +432,41 @@ def observe(bd: str) -> T.Dict[str, str]:
     return out
 
 
+ARTEFACTS = ['build.ninja', 'compile_commands.json', 'conf.h']
+
+
+def artefacts(bd: str) -> T.Tuple[T.Dict[str, str], str]:
+    """signature of every output a (re)configuration rewrites, slot path normalised; + the build.ninja text"""
+    slot = os.path.dirname(bd).encode()
+    out: T.Dict[str, str] = {}
+    ninja = ''
+    names = list(ARTEFACTS)
+    info = os.path.join(bd, 'meson-info')
+    if os.path.isdir(info):
+        names += sorted('meson-info/' + f for f in os.listdir(info) if f.startswith('intro-') and f.endswith('.json'))
+    for rel in names:
+        p = os.path.join(bd, rel)
+        if not os.path.isfile(p):
+            continue
+        data = open(p, 'rb').read().replace(slot, b'@SLOT')
+        if rel.endswith('.json'):
+            try:
+                data = json.dumps(json.loads(data.decode('utf-8')), sort_keys=True).encode()
+            except Exception:
+                out[rel] = 'unparsable'
+                continue
+        out[rel] = hashlib.sha256(data).hexdigest()[:12]
+        if rel == 'build.ninja':
+            ninja = data.decode('utf-8', 'replace')
+    return out, ninja
+
+
+def leftovers(bd: str) -> T.List[str]:
+    """temporary files present in the directory"""
+    return sorted(p for p, k in listing(bd).items()
+                  if k == 'f' and (p.endswith('~') or os.path.basename(p) == 'tmp_dump.json'))
+
+
 def snapshot_sigs(bd: str) -> T.Dict[str, str]:
     return observe(bd)
 
@@ -558,6 +593,27 @@ def record(slot: Slot, sc: Scn) -> dict:
             'post_obs': post_obs, 'pre_vals': pre_vals, 'post_vals': post_vals, 'older_vals': older_vals}
 
 
+def record_refs(slot: Slot, sc: Scn) -> dict:
+    """artefacts of an uninterrupted world: the follow-up setup run (a) on the directory as it was before the command
+    and (b) on the directory after the command got through (for a command made to fail from outside — no ninja,
+    failing postconf script — after the same command line got through without that)"""
+    refs: T.Dict[str, T.Optional[T.Dict[str, str]]] = {'old': None, 'new': None}
+    slot.restore(sc.hist, sc.backend)
+    if os.path.exists(os.path.join(slot.bd, 'meson-private', 'coredata.dat')):
+        rc, _o = run_proc(meson_argv('reconfigure', [], slot.bd, sc.backend), meson_env(slot.tmp))
+        if rc == 0:
+            refs['old'] = artefacts(slot.bd)[0]
+    slot.restore(sc.hist, sc.backend)
+    extra = sc.env_extra if sc.variant in ('ok', 'invalid', 'error') else None
+    rc, _o = run_proc(meson_argv(sc.cmd, sc.args, slot.bd, sc.backend), meson_env(slot.tmp, extra=extra))
+    if rc == 0:
+        rc, _o = run_proc(meson_argv('reconfigure', [], slot.bd, sc.backend), meson_env(slot.tmp))
+        if rc == 0:
+            refs['new'] = artefacts(slot.bd)[0]
+    slot.clean_tmp()
+    return refs
+
+
 def record_fresh(slot: Slot) -> dict:
     """what a plain first-time `meson setup` (no -D) yields: the `fresh` configuration"""
     common.rmtree(slot.bd)
@@ -633,7 +689,7 @@ def lean_state(s: str) -> str:
 
 # ---------------------------------------------------------------- one crash point on the real code
 
-def crash_point(slot: Slot, sc: Scn, k: int, mode: str) -> dict:
+def crash_point(slot: Slot, sc: Scn, k: int, mode: str, second_always: bool = False) -> dict:
     slot.restore(sc.hist, sc.backend)
     if os.path.exists(slot.log):
         os.unlink(slot.log)
@@ -659,8 +715,20 @@ def crash_point(slot: Slot, sc: Scn, k: int, mode: str) -> dict:
     clp = os.path.join(slot.bd, 'meson-private', 'cmd_line.txt')
     after = {'meson-private/cmd_line.txt': 'a' if not os.path.exists(clp) else ('t' if cmdline_dict(clp) is None else 'o')}
     bdat = build_dat_ok(slot.bd)
+    arte, ninja_text = artefacts(slot.bd)
+    left = leftovers(slot.bd)
+    second = None
+    if rrc == 0 and (left or second_always):
+        # a second recovery must change nothing (no leftover influences the directory)
+        r2, _o2 = run_proc(meson_argv('reconfigure', [], slot.bd, sc.backend), meson_env(slot.tmp))
+        arte2, _n2 = artefacts(slot.bd)
+        vals2 = coredata_values(os.path.join(slot.bd, 'meson-private', 'coredata.dat'))
+        second = {'rc': r2, 'same_artefacts': arte2 == arte, 'same_values': vals2 == after_vals,
+                  'changed': sorted(n for n in set(arte) | set(arte2) if arte.get(n) != arte2.get(n))[:6]}
     slot.clean_tmp()
-    return {'scn': sc.name, 'k': k, 'mode': mode, 'crash_rc': rc, 'prefix': prefix, 'obs': obs,
+    return {'artefacts': arte, 'ninja_text': ninja_text if sc.backend == 'ninja' else '', 'leftovers': left,
+            'second': second,
+            'scn': sc.name, 'k': k, 'mode': mode, 'crash_rc': rc, 'prefix': prefix, 'obs': obs,
             'crashed_vals': crashed_vals, 'recovery': rkind, 'rrc': rrc, 'traceback': trace_back,
             'rout': rout[-1500:], 'after_vals': after_vals, 'after': after, 'build_load_ok': bdat}
 
@@ -751,6 +819,33 @@ def oracle(ctx: Ctx, rec: dict, r: dict) -> None:
         ctx.violation(f'{sc.cmd}:{culprit(r["obs"])}:options-lost',
                       f'after killing `meson {sc.cmd}` and re-running setup, options have neither their old nor '
                       f'their new value', case)
+        return
+    # the recovered directory as a whole: every output the follow-up setup rewrites equals the one of a world where
+    # the killed command never ran, or of one where it got through
+    refs = rec.get('refs') or {}
+    cands = [x for x in (refs.get('old'), refs.get('new')) if x]
+    if cands:
+        names = set(r['artefacts'])
+        for c in cands:
+            names |= set(c)
+        bad = sorted(n for n in names if r['artefacts'].get(n) not in [c.get(n) for c in cands])
+        if bad:
+            cls = sorted({'intro' if n.startswith('meson-info/') else n for n in bad})
+            case['differing_outputs'] = bad[:8]
+            case['leftover_temporaries_after_kill'] = [p for p, o in r['obs'].items() if p.endswith('~') and o != 'a']
+            ctx.violation(f'{sc.cmd}:recovered-output-differs:{"+".join(cls)}',
+                          f'after killing `meson {sc.cmd}` the follow-up setup succeeds but leaves outputs that differ '
+                          f'from those of an uninterrupted run (neither as if the command never ran nor as if it '
+                          f'completed)', case)
+            return
+    if r['leftovers']:
+        ctx.tag('leftover-temporaries-after-recovery', len(r['leftovers']))
+    sec = r.get('second')
+    if sec is not None and (sec['rc'] != 0 or not sec['same_artefacts'] or not sec['same_values']):
+        case['second_recovery'] = sec
+        case['leftovers_after_first_recovery'] = r['leftovers']
+        ctx.violation(f'{sc.cmd}:second-recovery-changes-directory',
+                      'a second follow-up setup changes the recovered directory (a leftover still influences it)', case)
 
 
 def model_lines(rec: dict, r: dict, I: Interner, st0: T.Dict[str, str]) -> T.Tuple[str, str]:
@@ -899,10 +994,41 @@ def evaluate(ctx: Ctx, rec: dict, results: T.List[dict]) -> None:
                                   'model': vb, 'differences(model,real)': dict(list(diff.items())[:6])})
         if va != vb:
             ctx.tag('model-state-coarser-than-observed')
+    check_manifests(ctx, sc, results)
     if len(ctx.samples) < 8 and results:
         r = results[len(results) // 2]
         ctx.sample({'scenario': sc.name, 'k': r['k'], 'mode': r['mode'], 'recovery': r['recovery'],
                     'recovery_rc': r['rrc'], 'state_after_kill': r['obs']})
+
+
+def check_manifests(ctx: Ctx, sc: Scn, results: T.List[dict]) -> None:
+    """run the Lean manifest checker of C04 (`mvdriver-ninja check`: rejects duplicate rules/outputs, undefined
+    rules, cycles, dangling inputs) on every distinct build.ninja a recovery left"""
+    if sc.backend != 'ninja' or not os.path.exists(common.driver_path('ninja')):
+        return
+    by_text: T.Dict[str, dict] = {}
+    for r in results:
+        if r['rrc'] == 0 and r.get('ninja_text'):
+            by_text.setdefault(r['ninja_text'], r)
+    if not by_text:
+        return
+    texts = list(by_text)
+    try:
+        lv = ctx.driver('ninja', ['leaves ' + common.enc(t) for t in texts])
+        ans = ctx.driver('ninja', [f'check {common.enc(t)}|{(l.split("|", 1)[1] if l.startswith("OK|") else "")}|'
+                                   for t, l in zip(texts, lv)])
+    except common.ToolFailure as e:
+        ctx.notes.append(f'manifest checker unavailable: {e}')
+        return
+    for t, l, a in zip(texts, lv, ans):
+        ctx.tag('recovered-manifests-checked')
+        verdict = a if l.startswith('OK|') else l
+        if not verdict.startswith('OK|wf=1'):
+            r = by_text[t]
+            ctx.violation(f'{sc.cmd}:recovered-build.ninja-malformed',
+                          'the build.ninja left by the follow-up setup is rejected by the manifest checker',
+                          {'scenario': sc.name, 'k': r['k'], 'mode': r['mode'], 'checker': verdict[:200],
+                           'state_after_kill': r['obs']})
 
 
 def model_bad_points(ctx: Ctx, rec: dict) -> T.List[T.Tuple[int, str]]:
@@ -933,6 +1059,9 @@ def run_scenarios(ctx: Ctx, scenarios: T.List[Scn]) -> None:
     P = pool()
     record_all(scenarios)
     futs: T.List[T.Tuple[Scn, concurrent.futures.Future]] = []
+    ref_futs = {sc: P.submit(record_refs, sc) for sc in scenarios if 'refs' not in _RECORDED[sc]}
+    for sc, f in ref_futs.items():
+        _RECORDED[sc]['refs'] = f.result()
     for sc in scenarios:
         rec = _RECORDED[sc]
         if rec['rc'] != sc.expected_rc:
@@ -956,7 +1085,7 @@ def run_scenarios(ctx: Ctx, scenarios: T.List[Scn]) -> None:
         ctx.tag('crash-points:' + sc.name, len(pts))
         ctx.tag('effects-recorded:' + sc.name, len(rec['raw']))
         for k, mode in pts:
-            futs.append((sc, P.submit(crash_point, sc, k, mode)))
+            futs.append((sc, P.submit(crash_point, sc, k, mode, bool(ctx.deep and k % 8 == 0))))
     by: T.Dict[Scn, T.List[dict]] = {}
     for sc, f in futs:
         by.setdefault(sc, []).append(f.result())
@@ -1018,8 +1147,9 @@ def replay(ctx: Ctx, rep: dict) -> None:
         P = pool()
         record_all([sc])
         rec = _RECORDED[sc]
-        r = P.submit(crash_point, sc, int(case['k']), case.get('mode', 'b')).result()
-        print(json.dumps({k: v for k, v in r.items() if k not in ('prefix',)}, indent=1, default=repr)[:3000])
+        _RECORDED[sc]['refs'] = P.submit(record_refs, sc).result()
+        r = P.submit(crash_point, sc, int(case['k']), case.get('mode', 'b'), True).result()
+        print(json.dumps({k: v for k, v in r.items() if k not in ('prefix', 'ninja_text')}, indent=1, default=repr)[:3000])
         evaluate(ctx, rec, [r])
     finally:
         if _POOL is not None:
